@@ -1,4 +1,554 @@
+//! C01 — conversions invert and commute: path search over the compiler-discovered conversion
+//! graph (E3). For every node A, every in-range lattice value of A (plus the images of an
+//! RGB grid) and every target B that can represent the colour: cycles A→B→A return the original
+//! colour, the direct edge A→B agrees with every stepwise path A→M→B (and A→M1→M2→B in the
+//! thorough tier), and attaching alpha changes nothing (bitwise).
+use pg::{Graph, Kind};
+use pv::fl::Fl;
+use pv::refmodel::{max_abs_diff, V3};
+use pv::{json, Collector, Ctx, Mode, Tier, Value};
+
+fn to64<T: Fl>(v: [T; 3]) -> V3 {
+    [v[0].to64(), v[1].to64(), v[2].to64()]
+}
+fn hex<T: Fl>(v: &[T]) -> Vec<String> {
+    v.iter().map(|x| format!("{:#x}", x.bits64())).collect()
+}
+fn bits3<T: Fl>(v: [T; 3]) -> [u64; 3] {
+    [v[0].bits64(), v[1].bits64(), v[2].bits64()]
+}
+
+/// tolerance on ‖ΔXYZ‖∞ (white = 1) between two descriptions of the same colour.
+/// f64: the published 7-digit matrices / white points and their hard-coded inverses limit any
+/// implementation to ≈ 5e-7·cond; f32: K·2^-24 with K the length of the longest path times the
+/// worst elementary amplification. Both ≥ 8× what rounding produces on the pinned tree (see the
+/// max_err_over_tol values in the evidence) and ≤ 1/10 of the smallest seeded bug effect (1e-3).
+fn tol<T: Fl>() -> f64 {
+    let scale = 1.0;
+    if T::NAME == "f32" {
+        1.0e-4 * scale
+    } else {
+        4.0e-6 * scale
+    }
+}
+/// Okhsl/Okhsv/Okhwb amplify single-precision rounding far more than any other node: next to
+/// white and black the chroma is a ratio of two vanishing quantities (C / C_max with the toe
+/// function on top), measured at 2.1e-4 for white in f32 on the pinned tree against ≤ 2e-5 for
+/// every other node. Paths through them get 10× the f32 tolerance (still ≥ 1 order below a
+/// wrong constant or branch, which moves colours by ≥ 1e-2 there). f64 is not widened.
+fn tol_path<T: Fl>(path: &[&Kind]) -> f64 {
+    if T::NAME == "f32" && path.iter().any(|k| is_ok_cyl(k)) {
+        10.0 * tol::<T>()
+    } else {
+        tol::<T>()
+    }
+}
+
+fn kind_class(err: f64) -> &'static str {
+    if err.is_nan() {
+        "NaN"
+    } else if err.is_infinite() {
+        "inf"
+    } else {
+        "finite-off"
+    }
+}
+
+fn is_ok_cyl(k: &Kind) -> bool {
+    matches!(k, Kind::Okhsl | Kind::Okhsv | Kind::Okhwb)
+}
+fn is_ok_family(k: &Kind) -> bool {
+    matches!(k, Kind::Oklab | Kind::Oklch | Kind::Okhsl | Kind::Okhsv | Kind::Okhwb)
+}
+/// types whose RGB space is `Srgb` (sRGB primaries + D65): the ones for which palette uses
+/// Ottosson's direct linear-sRGB <-> Oklab matrices instead of the route through XYZ
+fn is_srgb_space(k: &Kind) -> bool {
+    match k {
+        Kind::Rgb(s) | Kind::Hsl(s) | Kind::Hsv(s) | Kind::Hwb(s) => s.prim == pv::refmodel::rgb::SRGB.prim && s.wp == pv::refmodel::cie::Wp::D65,
+        _ => false,
+    }
+}
+/// +1 when the edge x -> y enters the Ok family from an sRGB-space type (direct matrices), −1
+/// when it leaves the Ok family towards one; 0 for every other edge (XYZ route or no Ok type).
+fn direct_step(x: &Kind, y: &Kind) -> i32 {
+    if is_ok_family(y) && is_srgb_space(x) {
+        1
+    } else if is_ok_family(x) && is_srgb_space(y) {
+        -1
+    } else {
+        0
+    }
+}
+/// Net number of uses of the direct sRGB<->Oklab matrices along a path (enter − exit). A luma
+/// node projects onto the grey axis and thereby erases whatever offset was picked up before it.
+fn direct_net(path: &[&Kind]) -> i32 {
+    let mut net = 0;
+    for w in path.windows(2) {
+        if w[0].is_luma() {
+            net = 0;
+        }
+        net += direct_step(w[0], w[1]);
+    }
+    net
+}
+/// Input class of a violation (part of its signature, DESIGN.md §3.6):
+/// * `@ok-blue-cusp`: an Okhsl/Okhsv/Okhwb node is on the path and the colour's Oklab hue is
+///   within 0.01° of the sRGB blue primary (264.052°), where the published max-saturation
+///   approximation is discontinuous;
+/// * `@okcyl-near-white`: an Okhsl/Okhsv/Okhwb node on the path and Oklab lightness ≥ 0.95:
+///   saturation is a ratio of two quantities that vanish at white. In f32 rounding alone loses
+///   them (error grows without bound towards white); in f64 a colour that reaches Okhsl through
+///   the XYZ route (M1) lies, by the 2.3e-4 inconsistency with the direct matrices that define
+///   Okhsl's gamut, *outside* that gamut next to white, where the published saturation formula
+///   has a pole (saturation −4 for a colour 3e-4 from white) and is no longer invertible;
+/// * `@oklab-direct-vs-xyz` (`+okcyl` with an Okhsl/Okhsv/Okhwb node on the path): the two
+///   compared paths use the direct sRGB<->Oklab matrices a different net number of times (the
+///   published direct matrices and M1 are inconsistent at 2.3e-4);
+/// * ``: everything else.
+fn input_class(path: &[&Kind], xyz_ref: V3, triangle: bool, f32_: bool) -> &'static str {
+    let okcyl = path.iter().any(|k| is_ok_cyl(k));
+    if okcyl {
+        let lab = pv::refmodel::ok::xyz_to_oklab(xyz_ref);
+        let h = lab[2].atan2(lab[1]).to_degrees().rem_euclid(360.0);
+        let c = (lab[1] * lab[1] + lab[2] * lab[2]).sqrt();
+        if c > 1e-6 && (h - 264.0520206).abs() < 0.01 {
+            return "@ok-blue-cusp";
+        }
+        let _ = f32_;
+        if lab[0] >= 0.95 {
+            return "@okcyl-near-white";
+        }
+    }
+    if triangle && path.len() >= 3 {
+        let direct = direct_net(&[path[0], path[path.len() - 1]]);
+        if direct != direct_net(path) {
+            return if okcyl { "@oklab-direct-vs-xyz+okcyl" } else { "@oklab-direct-vs-xyz" };
+        }
+    }
+    ""
+}
+
+struct Cfg {
+    dense: bool,
+    grid: usize,
+    path3: bool,
+    alpha: bool,
+}
+
+fn grid_spec(g: &str) -> pv::refmodel::rgb::RgbSpec {
+    use pv::refmodel::rgb as R;
+    match g {
+        "D50" => R::PROPHOTO,
+        "DCI" => R::DCI_P3,
+        _ => R::SRGB,
+    }
+}
+
+/// the value set of a source node: its in-range lattice ∪ reference images of the RGB grid
+fn values_for<T: Fl>(g: &Graph<T>, a: usize, cfg: &Cfg) -> Vec<[T; 3]> {
+    let kind = g.nodes[a].kind;
+    let mut vals: Vec<V3> = kind.lattice(cfg.dense);
+    let spec = grid_spec(g.name);
+    for xyz in pv::colorkind::srgb_grid_xyz(cfg.grid, &spec) {
+        if kind.can_represent(xyz, 0.0) {
+            let img = kind.from_xyz(xyz);
+            if img.iter().all(|x| x.is_finite()) {
+                vals.push(img);
+            }
+        }
+    }
+    let mut out: Vec<[T; 3]> = vals.into_iter().map(|v| [T::from64(v[0]), T::from64(v[1]), T::from64(v[2])]).collect();
+    out.sort_by_key(|v| bits3(*v));
+    out.dedup_by_key(|v| bits3(*v));
+    out
+}
+
+fn call3<T: Fl>(f: pg::F3<T>, v: [T; 3]) -> Result<[T; 3], String> {
+    pv::catch(|| f(v))
+}
+
+/// ‖ΔXYZ‖∞ of two values of node kind `k` (NaN if either is non-finite in the reference map)
+fn dist(k: &Kind, a: V3, b_xyz: V3) -> f64 {
+    let ax = k.to_xyz(a);
+    max_abs_diff(ax, b_xyz)
+}
+
+#[allow(clippy::too_many_arguments)]
+fn explore_value<T: Fl>(g: &Graph<T>, cfg: &Cfg, a: usize, v: [T; 3], c: &mut Collector, cnt: &mut [u64; 4]) {
+    let n = g.n();
+    let ka = g.nodes[a].kind;
+    let v64 = to64(v);
+    let xyz_ref = ka.to_xyz(v64);
+    // the source itself must be a real colour that its own type represents well (e.g. no CIELUV
+    // value whose chromaticity lies far outside the spectral locus)
+    if !pv::colorkind::plausible(xyz_ref) || !(ka.can_represent(xyz_ref, 1e-7) || ka.is_luma()) {
+        return;
+    }
+    cnt[0] += 1;
+    // a grey / achromatic value may pass through luma
+    let grey_ok = |k: &Kind| -> bool { k.can_represent(xyz_ref, 1e-9) };
+    let repr: Vec<bool> = (0..n).map(|b| g.nodes[b].kind.can_represent(xyz_ref, 1e-7)).collect();
+    // direct results
+    let mut direct: Vec<Option<Result<[T; 3], String>>> = vec![None; n];
+    for b in 0..n {
+        if let Some(f) = g.unc[a][b] {
+            if repr[b] || g.nodes[b].kind.is_luma() {
+                direct[b] = Some(call3(f, v));
+                cnt[1] += 1;
+            }
+        }
+    }
+    let name = |i: usize| g.nodes[i].name;
+    let sigbase = |check: &str, a: usize, b: usize, cls: &str| format!("C01/{}/{}/{}/{}->{}/{}", check, g.name, T::NAME, name(a), name(b), cls);
+    let mkcase = |sub: &str, path: &[usize], obs: Value, exp: Value| -> Value {
+        json!({"sub": sub, "group": g.name, "float": T::NAME, "path": path.iter().map(|&i| name(i)).collect::<Vec<_>>(), "input": hex(&v), "value": v64, "observed": obs, "expected": exp})
+    };
+    for b in 0..n {
+        let Some(db) = &direct[b] else { continue };
+        let kb = g.nodes[b].kind;
+        let db = match db {
+            Ok(x) => *x,
+            Err(msg) => {
+                if repr[b] {
+                    c.violation(&sigbase("edge-panic", a, b, "panic"), 1.0, || mkcase("edge", &[a, b], json!({"panic": msg}), json!("no panic")));
+                }
+                continue;
+            }
+        };
+        let xyz_direct = kb.to_xyz(to64(db));
+        // (i) cycle A -> B -> A (never through luma unless the colour is achromatic)
+        if b != a && repr[b] && (!kb.is_luma() || grey_ok(&kb)) {
+            if let Some(fback) = g.unc[b][a] {
+                cnt[1] += 1;
+                cnt[2] += 1;
+                match call3(fback, db) {
+                    Err(msg) => c.violation(&sigbase("cycle", a, b, "panic"), 1.0, || mkcase("cycle", &[a, b, a], json!({"panic": msg}), json!("no panic"))),
+                    Ok(back) => {
+                        let e = dist(&ka, to64(back), xyz_ref);
+                        let t = tol_path::<T>(&[&ka, &kb]);
+                        if e <= t {
+                            c.ratio("cycle", e / t, || mkcase("cycle", &[a, b, a], json!({"back": to64(back), "err": pv::report::fnum(e)}), json!(v64)));
+                        }
+                        if !(e <= t) {
+                            let cls = format!("{}{}", kind_class(e), input_class(&[&ka, &kb, &ka], xyz_ref, false, T::NAME == "f32"));
+                            c.violation(&sigbase("cycle", a, b, &cls), e, || mkcase("cycle", &[a, b, a], json!({"via": to64(db), "back": to64(back), "dxyz": pv::report::fnum(e)}), json!({"back": v64, "tol": t})));
+                        }
+                        c.outcome(pv::fnv(format!("{:?}", bits3(back)).as_bytes()));
+                    }
+                }
+            }
+        }
+        if !(repr[b] || (kb.is_luma())) {
+            continue;
+        }
+        // (ii) triangles A -> M -> B versus the direct edge
+        for m in 0..n {
+            if m == a || m == b || !repr[m] {
+                continue;
+            }
+            let km = g.nodes[m].kind;
+            if km.is_luma() && !grey_ok(&km) {
+                continue;
+            }
+            let (Some(Ok(dm)), Some(fmb)) = (&direct[m], g.unc[m][b]) else { continue };
+            cnt[1] += 1;
+            cnt[2] += 1;
+            match call3(fmb, *dm) {
+                Err(msg) => c.violation(&sigbase("triangle", a, b, "panic"), 1.0, || mkcase("triangle", &[a, m, b], json!({"panic": msg}), json!("no panic"))),
+                Ok(via) => {
+                    let e = dist(&kb, to64(via), xyz_direct);
+                    let t = tol_path::<T>(&[&ka, &km, &kb]);
+                    if e <= t {
+                        c.ratio("triangle", e / t, || mkcase("triangle", &[a, m, b], json!({"via": to64(via), "direct": to64(db), "err": pv::report::fnum(e)}), json!(null)));
+                    }
+                    if !(e <= t) {
+                        let cls = format!("{}{}", kind_class(e), input_class(&[&ka, &km, &kb], xyz_ref, true, T::NAME == "f32"));
+                        c.violation(&sigbase("triangle", a, b, &cls), e, || mkcase("triangle", &[a, m, b], json!({"stepwise": to64(via), "dxyz": pv::report::fnum(e)}), json!({"direct": to64(db), "tol": t})));
+                    }
+                    // (iii) paths of length 3: A -> M -> M2 -> B
+                    if cfg.path3 {
+                        for m2 in 0..n {
+                            if m2 == a || m2 == b || m2 == m || !repr[m2] {
+                                continue;
+                            }
+                            let km2 = g.nodes[m2].kind;
+                            if km2.is_luma() && !grey_ok(&km2) {
+                                continue;
+                            }
+                            let (Some(fmm2), Some(fm2b)) = (g.unc[m][m2], g.unc[m2][b]) else { continue };
+                            cnt[1] += 2;
+                            cnt[2] += 1;
+                            let r = call3(fmm2, *dm).and_then(|x| call3(fm2b, x));
+                            match r {
+                                Err(msg) => c.violation(&sigbase("path3", a, b, "panic"), 1.0, || mkcase("path3", &[a, m, m2, b], json!({"panic": msg}), json!("no panic"))),
+                                Ok(via3) => {
+                                    let e = dist(&kb, to64(via3), xyz_direct);
+                                    let t = tol_path::<T>(&[&ka, &km, &km2, &kb]);
+                                    if e <= 1.5 * t {
+                                        c.ratio("path3", e / (1.5 * t), || mkcase("path3", &[a, m, m2, b], json!({"err": pv::report::fnum(e)}), json!(null)));
+                                    }
+                                    if !(e <= 1.5 * t) {
+                                        let cls = format!("{}{}", kind_class(e), input_class(&[&ka, &km, &km2, &kb], xyz_ref, true, T::NAME == "f32"));
+                                        c.violation(&sigbase("path3", a, b, &cls), e, || mkcase("path3", &[a, m, m2, b], json!({"stepwise": to64(via3), "dxyz": pv::report::fnum(e)}), json!({"direct": to64(db), "tol": 1.5 * t})));
+                                    }
+                                }
+                            }
+                        }
+                    }
+                }
+            }
+        }
+        // alpha: bitwise identical colour, alpha untouched / max / dropped
+        if cfg.alpha && repr[b] {
+            let one = T::from64(1.0);
+            for alpha in [T::from64(0.0), T::from64(0.25), one, T::from64(0.1)] {
+                let v4 = [v[0], v[1], v[2], alpha];
+                if let Some(f) = g.aa[a][b] {
+                    cnt[1] += 1;
+                    cnt[2] += 1;
+                    match pv::catch(|| f(v4)) {
+                        Ok(r) => {
+                            if bits3([r[0], r[1], r[2]]) != bits3(db) || r[3].bits64() != alpha.bits64() {
+                                c.violation(&sigbase("alpha-alpha", a, b, "bits"), 1.0, || mkcase("alpha-aa", &[a, b], json!({"result": [r[0].to64(), r[1].to64(), r[2].to64(), r[3].to64()], "alpha_in": alpha.to64()}), json!({"color": to64(db), "alpha": alpha.to64()})));
+                            }
+                        }
+                        Err(msg) => c.violation(&sigbase("alpha-alpha", a, b, "panic"), 1.0, || mkcase("alpha-aa", &[a, b], json!({"panic": msg}), json!("no panic"))),
+                    }
+                }
+                if let Some(f) = g.ap[a][b] {
+                    cnt[1] += 1;
+                    cnt[2] += 1;
+                    match pv::catch(|| f(v4)) {
+                        Ok(r) => {
+                            if bits3(r) != bits3(db) {
+                                c.violation(&sigbase("alpha-plain", a, b, "bits"), 1.0, || mkcase("alpha-ap", &[a, b], json!({"result": to64(r), "alpha_in": alpha.to64()}), json!({"color": to64(db)})));
+                            }
+                        }
+                        Err(msg) => c.violation(&sigbase("alpha-plain", a, b, "panic"), 1.0, || mkcase("alpha-ap", &[a, b], json!({"panic": msg}), json!("no panic"))),
+                    }
+                }
+            }
+            if let Some(f) = g.pa[a][b] {
+                cnt[1] += 1;
+                cnt[2] += 1;
+                match pv::catch(|| f(v)) {
+                    Ok(r) => {
+                        if bits3([r[0], r[1], r[2]]) != bits3(db) || r[3].bits64() != one.bits64() {
+                            c.violation(&sigbase("plain-alpha", a, b, "bits"), 1.0, || mkcase("alpha-pa", &[a, b], json!({"result": [r[0].to64(), r[1].to64(), r[2].to64(), r[3].to64()]}), json!({"color": to64(db), "alpha": 1.0})));
+                        }
+                    }
+                    Err(msg) => c.violation(&sigbase("plain-alpha", a, b, "panic"), 1.0, || mkcase("alpha-pa", &[a, b], json!({"panic": msg}), json!("no panic"))),
+                }
+            }
+        }
+    }
+}
+
+fn run_graph<T: Fl>(ctx: &Ctx, g: &Graph<T>, cfg: &Cfg, total: &mut Collector) {
+    let sub = format!("graph/{}/{}", g.name, T::NAME);
+    if !ctx.wants(&sub) {
+        return;
+    }
+    let n = g.n();
+    // work items: (node, chunk of its values)
+    let vals: Vec<Vec<[T; 3]>> = (0..n).map(|a| values_for(g, a, cfg)).collect();
+    let mut items: Vec<(usize, usize, usize)> = vec![];
+    for a in 0..n {
+        let per = 64;
+        let mut i = 0;
+        while i < vals[a].len() {
+            items.push((a, i, (i + per).min(vals[a].len())));
+            i += per;
+        }
+    }
+    let items_ref = &items;
+    let vals_ref = &vals;
+    let cc = pv::par::run_chunks(items.len(), |ci, c| {
+        let (a, lo, hi) = items_ref[ci];
+        let mut cnt = [0u64; 4];
+        for i in lo..hi {
+            let v = vals_ref[a][i];
+            explore_value(g, cfg, a, v, c, &mut cnt);
+            c.sample(pv::splitmix((ci as u64) << 20 | i as u64), || json!({"group": g.name, "float": T::NAME, "node": g.nodes[a].name, "value": to64(v)}));
+        }
+        c.add(&sub, cnt[0], cnt[1], cnt[2], cnt[0]);
+    });
+    total.merge(cc);
+    total.exhaustive(
+        &sub,
+        true,
+        &format!(
+            "{} nodes, {} discovered edges; every lattice value ({}) ∪ {}^3 RGB-grid images per node; all cycles of length 2, all triangles{}{}",
+            n,
+            g.edge_count(),
+            if cfg.dense { "dense" } else { "coarse" },
+            cfg.grid,
+            if cfg.path3 { ", all simple paths of length 3" } else { "" },
+            if cfg.alpha { ", alpha forms of every edge" } else { "" }
+        ),
+    );
+    total.note(&format!("adjacency/{}/{}", g.name, T::NAME), json!(g.adjacency_text().lines().collect::<Vec<_>>()));
+    total.note(&format!("edges/{}/{}", g.name, T::NAME), json!(g.edge_count()));
+}
+
+/// compare the discovered adjacency with the committed expectation (coverage change, not verdict)
+fn check_expected_edges(total: &mut Collector, text: &str) {
+    let path = std::path::Path::new(env!("CARGO_MANIFEST_DIR")).join("expected_edges.txt");
+    // sections "# <group> <float>" -> rows; only the graphs of this run are compared
+    let sections = |t: &str| -> std::collections::BTreeMap<String, String> {
+        let mut m = std::collections::BTreeMap::new();
+        let mut cur = String::new();
+        for l in t.lines() {
+            if let Some(h) = l.strip_prefix("# ") {
+                cur = h.to_string();
+                m.insert(cur.clone(), String::new());
+            } else if let Some(b) = m.get_mut(&cur) {
+                b.push_str(l.trim_end());
+                b.push('\n');
+            }
+        }
+        m
+    };
+    match std::fs::read_to_string(&path) {
+        Ok(exp) => {
+            let e = sections(&exp);
+            for (k, body) in sections(text) {
+                match e.get(&k) {
+                    Some(b) if *b == body => {}
+                    Some(_) => total.warn(format!("discovered conversion-edge matrix of graph '{k}' differs from c01/expected_edges.txt (coverage change)")),
+                    None => total.warn(format!("graph '{k}' has no section in c01/expected_edges.txt")),
+                }
+            }
+        }
+        Err(_) => total.warn("c01/expected_edges.txt missing".to_string()),
+    }
+    if std::env::var("C01_WRITE_EDGES").is_ok() {
+        let _ = std::fs::write(&path, text);
+    }
+}
+
+macro_rules! with_graph {
+    ($group:expr, $float:expr, |$g:ident| $body:expr) => {
+        match ($group, $float) {
+            ("D65-core", "f32") => { let $g = pga::d65_f32(); $body }
+            ("D65-core", "f64") => { let $g = pgb::d65_f64(); $body }
+            ("D65-cylindrical", "f32") => { let $g = pgc::d65cyl_f32(); $body }
+            ("D65-cylindrical", "f64") => { let $g = pgc::d65cyl_f64(); $body }
+            ("D50", "f32") => { let $g = pgd::d50_f32(); $body }
+            ("D50", "f64") => { let $g = pgd::d50_f64(); $body }
+            ("DCI", "f32") => { let $g = pgd::dci_f32(); $body }
+            ("DCI", "f64") => { let $g = pgd::dci_f64(); $body }
+            ("A", "f32") => { let $g = pgd::a_f32(); $body }
+            ("A", "f64") => { let $g = pgd::a_f64(); $body }
+            ("E", "f32") => { let $g = pgd::e_f32(); $body }
+            ("E", "f64") => { let $g = pgd::e_f64(); $body }
+            ("D55", "f64") => { let $g = pgd::d55_f64(); $body }
+            ("D75", "f64") => { let $g = pgd::d75_f64(); $body }
+            ("C", "f64") => { let $g = pgd::c_f64(); $body }
+            ("B", "f64") => { let $g = pgd::b_f64(); $body }
+            ("F2", "f64") => { let $g = pgd::f2_f64(); $body }
+            ("F7", "f64") => { let $g = pgd::f7_f64(); $body }
+            ("F11", "f64") => { let $g = pgd::f11_f64(); $body }
+            (g, f) => { eprintln!("unknown graph {g}/{f}"); std::process::exit(3) }
+        }
+    };
+}
+
+fn replay(c: &mut Collector, rep: &Value) {
+    let case = &rep["case"];
+    let group = case["group"].as_str().unwrap_or("").to_string();
+    let float = case["float"].as_str().unwrap_or("").to_string();
+    let path: Vec<String> = case["path"].as_array().map(|a| a.iter().map(|x| x.as_str().unwrap_or("").to_string()).collect()).unwrap_or_default();
+    let bits: Vec<u64> = case["input"].as_array().map(|a| a.iter().map(|x| u64::from_str_radix(x.as_str().unwrap_or("0").trim_start_matches("0x"), 16).unwrap_or(0)).collect()).unwrap_or_default();
+    let cfg = Cfg { dense: false, grid: 2, path3: true, alpha: true };
+    fn go<T: Fl>(g: &Graph<T>, cfg: &Cfg, path: &[String], bits: &[u64], c: &mut Collector) {
+        let a = g.index(&path[0]).expect("node");
+        let v = [T::from_bits64(bits[0]), T::from_bits64(bits[1]), T::from_bits64(bits[2])];
+        let mut cnt = [0u64; 4];
+        let mut all = Collector::new();
+        explore_value(g, cfg, a, v, &mut all, &mut cnt);
+        // keep only violations that concern the replayed pair
+        let b = path.last().map(|s| s.as_str()).unwrap_or("");
+        let b = if path.len() >= 3 && path[0] == *path.last().unwrap() { path[1].as_str() } else { b };
+        let needle = format!("/{}->{}/", path[0], b);
+        for (sig, v) in all.viol {
+            if sig.contains(&needle) {
+                println!("  {} magnitude={:e} {}", sig, v.magnitude, pv::report::compact(&v.first));
+                c.viol.insert(sig, v);
+            }
+        }
+    }
+    with_graph!(group.as_str(), float.as_str(), |g| go(&g, &cfg, &path, &bits, c));
+}
+
 fn main() {
-    eprintln!("C01: check not built yet");
-    std::process::exit(3);
+    pv::main_guard(real_main)
+}
+
+fn real_main() -> i32 {
+    let (ctx, mode) = Ctx::from_args("C01");
+    if let Mode::Replay(rep) = mode {
+        let mut c = Collector::new();
+        replay(&mut c, &rep);
+        return ctx.finish_replay(c);
+    }
+    let mut total = Collector::new();
+    let quick = ctx.tier == Tier::Quick;
+    let main_cfg = Cfg { dense: !quick, grid: if quick { 6 } else { 9 }, path3: false, alpha: true };
+    let small_cfg = Cfg { dense: !quick, grid: if quick { 6 } else { 9 }, path3: true, alpha: true };
+    // all simple paths of length 3 in the big D65 graph, on the coarse value set (thorough only)
+    let p3_cfg = Cfg { dense: false, grid: 3, path3: true, alpha: false };
+    let mut adjacency = String::new();
+    macro_rules! run {
+        ($g:expr, $cfg:expr) => {{
+            let g = $g;
+            let hdr = format!("# {} {}\n", g.name, g.float);
+            if !adjacency.contains(&hdr) {
+                adjacency.push_str(&format!("{}{}", hdr, g.adjacency_text()));
+            }
+            run_graph(&ctx, &g, $cfg, &mut total);
+        }};
+    }
+    run!(pga::d65_f32(), &main_cfg);
+    run!(pgb::d65_f64(), &main_cfg);
+    run!(pgc::d65cyl_f32(), &main_cfg);
+    run!(pgc::d65cyl_f64(), &main_cfg);
+    run!(pgd::d50_f32(), &small_cfg);
+    run!(pgd::d50_f64(), &small_cfg);
+    run!(pgd::dci_f32(), &small_cfg);
+    run!(pgd::dci_f64(), &small_cfg);
+    run!(pgd::a_f64(), &small_cfg);
+    run!(pgd::e_f32(), &small_cfg);
+    if !quick {
+        run!(pgd::a_f32(), &small_cfg);
+        run!(pgd::e_f64(), &small_cfg);
+        run!(pgd::d55_f64(), &small_cfg);
+        run!(pgd::d75_f64(), &small_cfg);
+        run!(pgd::c_f64(), &small_cfg);
+        run!(pgd::b_f64(), &small_cfg);
+        run!(pgd::f2_f64(), &small_cfg);
+        run!(pgd::f7_f64(), &small_cfg);
+        run!(pgd::f11_f64(), &small_cfg);
+        let mut p3 = Collector::new();
+        run_graph(&ctx, &pga::d65_f32(), &p3_cfg, &mut p3);
+        run_graph(&ctx, &pgb::d65_f64(), &p3_cfg, &mut p3);
+        // keep the path-3 pass under its own sub-check names
+        for (k, v) in std::mem::take(&mut p3.sub) {
+            p3.sub.insert(k.replace("graph/", "graph-path3/"), v);
+        }
+        total.merge(p3);
+    }
+    if ctx.only.is_none() {
+        check_expected_edges(&mut total, &adjacency);
+    }
+    ctx.finish(
+        total,
+        "model_checking",
+        "states = (node type, in-range lattice value or RGB-grid image) pairs per configuration (white point × float type); transitions = conversion edges executed along explored paths; traces = path pairs compared (cycle vs identity, direct vs stepwise, alpha vs bare); every state is non-trivial (has at least one outgoing edge); the edge set is discovered by the compiler",
+        &[
+            "‘same colour’ is decided in linear-light XYZ through one shared f64 reference map per type (pv::colorkind), used as a metric only",
+            "a target/intermediate participates only for colours it can represent: its reference image lies in its nominal range (RGB gamut for the gamut-bounded cylindrical types; grey axis for luma)",
+            "values between lattice points are not explored",
+        ],
+    )
 }
